@@ -10,7 +10,7 @@ use crate::Blowfish;
 use byteorder::BE;
 use refmodels::blowfish as r;
 
-//@ harness name=bc_init_state prop=C14 tier=quick bits=0 est=65 desc="D: Blowfish::bc_init_state() is the pi-digit state (P_INIT, S_INIT) the reference algorithm starts from (no symbolic input: constant tables compared entry by entry)"
+//@ harness name=bc_init_state prop=C14 tier=quick bits=0 est=45 need=4 desc="D: Blowfish::bc_init_state() is the pi-digit state (P_INIT, S_INIT) the reference algorithm starts from (no symbolic input: constant tables compared entry by entry)"
 verif_harness! {
     name: bc_init_state,
     bytes: 1,
@@ -36,7 +36,7 @@ verif_harness! {
     }
 }
 
-//@ harness name=bc_encrypt prop=C14,C20 tier=quick bits=33408 stub=1 est=66 desc="W: bc_encrypt([l, r]) on an arbitrary state == Schneier's Blowfish encryption of the word pair under that state's P and S, all (l, r); round_function uninterpreted and shared with the oracle (leaf lemma bf_round_function, conf.rs)"
+//@ harness name=bc_encrypt prop=C14,C20 tier=quick bits=33408 stub=1 est=60 need=5 desc="W: bc_encrypt([l, r]) on an arbitrary state == Schneier's Blowfish encryption of the word pair under that state's P and S, all (l, r); round_function uninterpreted and shared with the oracle (leaf lemma bf_round_function, conf.rs)"
 verif_harness! {
     name: bc_encrypt,
     bytes: STATE + 8,
@@ -63,7 +63,13 @@ const ZERO_SALT_VS_PLAIN: u8 = 2; // salted_expand_key(0^slen, key)    vs Schnei
 /// symbolic in 1..=16 (every salt byte read is a symbolic-index access on both sides: 8336 of them, which needs more
 /// than the quick tier's 14 GB during propositional reduction).
 fn step(inp: &[u8], mode: u8, slen16: bool) -> Option<bool> {
-    let mut c: Blowfish<BE> = arb_state(inp);
+    step2(inp, mode, slen16, false)
+}
+/// `init`: the pre-state is bc_init_state() (the state every bcrypt run starts from) instead of an arbitrary one: all
+/// 1042 state words are then constants until the expansion overwrites them, which keeps the query small enough for the
+/// quick tier; the arbitrary-pre-state forms (thorough) cover the later expansions of bcrypt's cost loop.
+fn step2(inp: &[u8], mode: u8, slen16: bool, init: bool) -> Option<bool> {
+    let mut c: Blowfish<BE> = if init { Blowfish::bc_init_state() } else { arb_state(inp) };
     let key: [u8; 72] = take(inp, STATE);
     let klen = inp[STATE + 72] as usize;
     let mut salt: [u8; 16] = take(inp, STATE + 73);
@@ -100,7 +106,7 @@ fn step(inp: &[u8], mode: u8, slen16: bool) -> Option<bool> {
     }
 }
 
-//@ harness name=bc_expand_key_w prop=C14,C20 tier=thorough bits=33928 stub=1 est=342 mem=30 desc="W: bc_expand_key(key[..klen]) from an arbitrary pre-state == Schneier's key expansion from that state (= ordinary Blowfish keying when the pre-state is bc_init_state), klen symbolic 1..=72 (only the first 72 bytes of the cycled key are ever used), co-routine stub: arguments, P array and newest stored pair compared at each of the 521 calls, full state at calls 0/9/137/265/393 and at the end"
+//@ harness name=bc_expand_key_w prop=C14,C20 tier=thorough bits=33928 stub=1 est=342 mem=30 cbmc_args=--max-field-sensitivity-array-size;1100 desc="W: bc_expand_key(key[..klen]) from an arbitrary pre-state == Schneier's key expansion from that state (= ordinary Blowfish keying when the pre-state is bc_init_state), klen symbolic 1..=72 (only the first 72 bytes of the cycled key are ever used), co-routine stub: arguments, P array and newest stored pair compared at each of the 521 calls, full state at calls 0/9/137/265/393 and at the end"
 verif_harness! {
     name: bc_expand_key_w,
     bytes: STATE + 90,
@@ -109,7 +115,7 @@ verif_harness! {
     prop: |inp| { step(inp, PLAIN_VS_PLAIN, true) }
 }
 
-//@ harness name=bc_salted_w prop=C14,C20 tier=thorough bits=34056 stub=1 est=1500 mem=30 desc="W: salted_expand_key(salt, key[..klen]) for a 16-byte salt (bcrypt's salt size) from an arbitrary pre-state == eksblowfish ExpandKey(state, salt, key): P ^= cycled key, then each of the 521 blocks = Enc(previous block ^ next 64 bits of the cycled salt) stored in order; all salt bytes, klen symbolic 1..=72, co-routine stub (checks as bc_expand_key_w)"
+//@ harness name=bc_salted_w prop=C14,C20 tier=thorough bits=34056 stub=1 est=1500 mem=30 cbmc_args=--max-field-sensitivity-array-size;1100 desc="W: salted_expand_key(salt, key[..klen]) for a 16-byte salt (bcrypt's salt size) from an arbitrary pre-state == eksblowfish ExpandKey(state, salt, key): P ^= cycled key, then each of the 521 blocks = Enc(previous block ^ next 64 bits of the cycled salt) stored in order; all salt bytes, klen symbolic 1..=72, co-routine stub (checks as bc_expand_key_w)"
 verif_harness! {
     name: bc_salted_w,
     bytes: STATE + 90,
@@ -118,7 +124,7 @@ verif_harness! {
     prop: |inp| { step(inp, SALTED_VS_EKS, true) }
 }
 
-//@ harness name=bc_zero_salt_w prop=C14 tier=thorough bits=33920 stub=1 est=1500 mem=30 desc="W: salted_expand_key(16 zero bytes, key) from an arbitrary pre-state == Schneier's (unsalted) expansion == bc_expand_key (by bc_expand_key_w), klen symbolic 1..=72"
+//@ harness name=bc_zero_salt_w prop=C14 tier=thorough bits=33920 stub=1 est=1500 mem=30 cbmc_args=--max-field-sensitivity-array-size;1100 desc="W: salted_expand_key(16 zero bytes, key) from an arbitrary pre-state == Schneier's (unsalted) expansion == bc_expand_key (by bc_expand_key_w), klen symbolic 1..=72"
 verif_harness! {
     name: bc_zero_salt_w,
     bytes: STATE + 90,
@@ -127,7 +133,7 @@ verif_harness! {
     prop: |inp| { step(inp, ZERO_SALT_VS_PLAIN, true) }
 }
 
-//@ harness name=bc_salted_anylen_w prop=C14,C20 tier=thorough bits=34064 stub=1 est=1500 mem=30 desc="W: as bc_salted_w with the salt length symbolic in 1..=16 (salt bytes cycled)"
+//@ harness name=bc_salted_anylen_w prop=C14,C20 tier=thorough bits=34064 stub=1 est=1500 mem=30 cbmc_args=--max-field-sensitivity-array-size;1100 desc="W: as bc_salted_w with the salt length symbolic in 1..=16 (salt bytes cycled)"
 verif_harness! {
     name: bc_salted_anylen_w,
     bytes: STATE + 90,
@@ -136,7 +142,7 @@ verif_harness! {
     prop: |inp| { step(inp, SALTED_VS_EKS, false) }
 }
 
-//@ harness name=bc_zero_salt_anylen_w prop=C14 tier=thorough bits=33928 stub=1 est=1500 mem=30 desc="W: as bc_zero_salt_w with an all-zero salt of symbolic length 1..=16"
+//@ harness name=bc_zero_salt_anylen_w prop=C14 tier=thorough bits=33928 stub=1 est=1500 mem=30 cbmc_args=--max-field-sensitivity-array-size;1100 desc="W: as bc_zero_salt_w with an all-zero salt of symbolic length 1..=16"
 verif_harness! {
     name: bc_zero_salt_anylen_w,
     bytes: STATE + 90,
@@ -144,3 +150,216 @@ verif_harness! {
     stubs: [(crate::Blowfish::encrypt, stub_encrypt)],
     prop: |inp| { step(inp, ZERO_SALT_VS_PLAIN, false) }
 }
+
+// ---- the same steps from the initial state (quick tier)
+//@ harness name=bc_salted_init_w prop=C14,C20 tier=thorough bits=728 stub=1 est=900 mem=30 cbmc_args=--max-field-sensitivity-array-size;1100 desc="W: salted_expand_key(salt, key[..klen]) for a 16-byte salt from bc_init_state() == eksblowfish ExpandKey(initial state, salt, key): all salt bytes, all key bytes, klen symbolic 1..=72; co-routine stub on encrypt (arguments, P array and newest stored pair compared at each of the 521 calls, full state at the checkpoints and at the end)"
+verif_harness! {
+    name: bc_salted_init_w,
+    bytes: STATE + 90,
+    unwind: 260,
+    stubs: [(crate::Blowfish::encrypt, stub_encrypt)],
+    prop: |inp| { step2(inp, SALTED_VS_EKS, true, true) }
+}
+//@ harness name=bc_salted_init_anylen_w prop=C14,C20 tier=thorough bits=736 stub=1 est=900 mem=30 cbmc_args=--max-field-sensitivity-array-size;1100 desc="W: as bc_salted_init_w with the salt length symbolic in 1..=16 (salt bytes cycled; lengths that do not divide 16 included)"
+verif_harness! {
+    name: bc_salted_init_anylen_w,
+    bytes: STATE + 90,
+    unwind: 260,
+    stubs: [(crate::Blowfish::encrypt, stub_encrypt)],
+    prop: |inp| { step2(inp, SALTED_VS_EKS, false, true) }
+}
+//@ harness name=bc_zero_salt_init_w prop=C14 tier=thorough bits=600 stub=1 est=900 mem=30 cbmc_args=--max-field-sensitivity-array-size;1100 desc="W: salted_expand_key(16 zero bytes, key) from bc_init_state() == Schneier's (unsalted) expansion == ordinary Blowfish keying, klen symbolic 1..=72 (keys longer than 56 bytes included)"
+verif_harness! {
+    name: bc_zero_salt_init_w,
+    bytes: STATE + 90,
+    unwind: 260,
+    stubs: [(crate::Blowfish::encrypt, stub_encrypt)],
+    prop: |inp| { step2(inp, ZERO_SALT_VS_PLAIN, true, true) }
+}
+//@ harness name=bc_expand_key_init_w prop=C14,C20 tier=thorough bits=584 stub=1 cbmc_args=--max-field-sensitivity-array-size;1100 est=450 need=15 desc="W: bc_expand_key(key[..klen]) from bc_init_state() == Schneier's key expansion (ordinary Blowfish keying), klen symbolic 1..=72"
+verif_harness! {
+    name: bc_expand_key_init_w,
+    bytes: STATE + 90,
+    unwind: 260,
+    stubs: [(crate::Blowfish::encrypt, stub_encrypt)],
+    prop: |inp| { step2(inp, PLAIN_VS_PLAIN, true, true) }
+}
+
+// ---- data-flow form (quick tier): which key / salt words are XORed where, and in which order ----------------------
+// `encrypt` is replaced by a cheap keyed stand-in E_k(l, r) that depends on the call index k and is a bijection of (l, r)
+// for every k, but NOT on the cipher state; the oracle's eksblowfish machine runs with the same stand-in; the FINAL states
+// (all 1042 words) are compared.  Every deviation in what is fed to the k-th encryption (which salt word, which key word,
+// the running block, the order) changes its output and so the stored words.  What this form does not see is the state
+// dependence of the real encrypt (that the k-th call runs on exactly the state written so far): that is the subject of the
+// lockstep harnesses above (thorough tier, 20-30 GB).  Pre-state: arbitrary P array, bc_init_state() S-boxes (every S word is
+// overwritten by the expansion, and nothing but `encrypt` reads them).
+pub mod dfl {
+    pub static mut N: u32 = 0;
+    /// the (l, r) argument of every call of the stubbed encrypt, in call order (recording form)
+    pub static mut IN: [[u32; 2]; 521] = [[0; 2]; 521];
+    pub static mut RECORD: bool = false;
+}
+fn cheap_e(k: u32, lr: [u32; 2]) -> [u32; 2] {
+    [lr[0].rotate_left(5) ^ lr[1] ^ k.wrapping_mul(0x9E37_79B9), lr[1].rotate_left(11) ^ k.wrapping_mul(0x85EB_CA6B) ^ 0x1234_5677]
+}
+/// recording form: the result of call k is a constant pair that depends on k only, the argument is logged; the chain
+/// "next argument = previous result ^ salt words" is thereby cut, so that every logged argument is a shallow term
+fn const_e(k: u32) -> [u32; 2] {
+    [k.wrapping_mul(0x9E37_79B9) ^ 0x0F0F_1234, k.wrapping_mul(0x85EB_CA6B) ^ 0x1234_5677]
+}
+pub fn stub_encrypt_df<T: byteorder::ByteOrder>(_this: &Blowfish<T>, lr: [u32; 2]) -> [u32; 2] {
+    unsafe {
+        let k = dfl::N;
+        dfl::N = k + 1;
+        if dfl::RECORD {
+            if (k as usize) < 521 {
+                dfl::IN[k as usize] = lr;
+            }
+            const_e(k)
+        } else {
+            cheap_e(k, lr)
+        }
+    }
+}
+/// inp = P (72) | key (72) | klen (1) | salt (24) | slen (1)
+fn dataflow<const MAXSALT: usize>(inp: &[u8], mode: u8) -> Option<bool> {
+    dataflow_at::<MAXSALT>(inp, mode, 0, 0)
+}
+/// `fix_slen` / `fix_klen` != 0: that length is a constant (every salt / key read is then at a constant position)
+fn dataflow_at<const MAXSALT: usize>(inp: &[u8], mode: u8, fix_slen: usize, fix_klen: usize) -> Option<bool> {
+    dataflow_rec::<MAXSALT>(inp, mode, fix_slen, fix_klen, false)
+}
+/// `record`: recording form of the stand-in (see const_e): the arguments of all 521 calls are compared, plus the final state
+fn dataflow_rec<const MAXSALT: usize>(inp: &[u8], mode: u8, fix_slen: usize, fix_klen: usize, record: bool) -> Option<bool> {
+    let mut c: Blowfish<BE> = Blowfish::bc_init_state();
+    let mut i = 0;
+    while i < 18 {
+        c.p[i] = take_u32(inp, 4 * i);
+        i += 1;
+    }
+    let key: [u8; 72] = take(inp, 72);
+    let klen = if fix_klen != 0 { fix_klen } else { inp[144] as usize };
+    let mut salt: [u8; 24] = take(inp, 145);
+    let slen = if fix_slen != 0 { fix_slen } else { inp[169] as usize };
+    vassume!(1 <= klen && klen <= 72);
+    vassume!(1 <= slen && slen <= MAXSALT);
+    if mode == ZERO_SALT_VS_PLAIN {
+        salt = [0u8; 24];
+    }
+    let (mut p, mut s) = (c.p, c.s);
+    unsafe {
+        dfl::N = 0;
+        dfl::RECORD = record;
+    }
+    if mode == PLAIN_VS_PLAIN {
+        c.bc_expand_key(&key[..klen]);
+    } else {
+        c.salted_expand_key(&salt[..slen], &key[..klen]);
+    }
+    #[cfg(kani)]
+    {
+        let mut k = 0u32;
+        let mut oin = [[0u32; 2]; 521];
+        let e = |_p: &[u32; 18], _s: &r::Sboxes, lr: [u32; 2]| {
+            let o = if record {
+                if (k as usize) < 521 {
+                    oin[k as usize] = lr;
+                }
+                const_e(k)
+            } else {
+                cheap_e(k, lr)
+            };
+            k += 1;
+            o
+        };
+        if mode == SALTED_VS_EKS {
+            r::eks_expand_key_with(&mut p, &mut s, &salt, slen, &key, klen, e);
+        } else {
+            r::expand_key_with(&mut p, &mut s, &key, klen, e);
+        }
+        if record {
+            let calls = unsafe { dfl::N };
+            vcheck!(calls == 521 && k == 521);
+            let lin: [[u32; 2]; 521] = unsafe { dfl::IN };
+            let mut dd = 0u32;
+            let mut q = 0;
+            while q < 521 {
+                dd |= (lin[q][0] ^ oin[q][0]) | (lin[q][1] ^ oin[q][1]);
+                q += 1;
+            }
+            vcheck!(dd == 0);
+        }
+    }
+    #[cfg(not(kani))]
+    {
+        if mode == SALTED_VS_EKS {
+            r::eks_expand_key(&mut p, &mut s, &salt, slen, &key, klen);
+        } else {
+            r::expand_key(&mut p, &mut s, &key, klen);
+        }
+    }
+    let mut d = 0u32;
+    i = 0;
+    while i < 18 {
+        d |= c.p[i] ^ p[i];
+        i += 1;
+    }
+    let cs: [[u32; 256]; 4] = c.s;
+    let mut b = 0;
+    while b < 4 {
+        let mut j = 0;
+        while j < 256 {
+            d |= cs[b][j] ^ s[b][j];
+            j += 1;
+        }
+        b += 1;
+    }
+    Some(d == 0)
+}
+//@ harness name=bc_salted_df prop=C14,C20 tier=thorough bits=1368 stub=1 est=900 mem=30 cbmc_args=--max-field-sensitivity-array-size;1100 desc="data flow of salted_expand_key(salt[..slen], key[..klen]) == eksblowfish ExpandKey: arbitrary P array, all salt and key bytes, slen symbolic 1..=24 (lengths that do not divide 16 and lengths above 16 included), klen symbolic 1..=72 (above 56 included); encrypt replaced on both sides by a state-independent bijective stand-in keyed by the call index; final state (1042 words) equal"
+verif_harness! {
+    name: bc_salted_df,
+    bytes: 170,
+    unwind: 540,
+    stubs: [(crate::Blowfish::encrypt, stub_encrypt_df)],
+    prop: |inp| { dataflow::<24>(&inp[..], SALTED_VS_EKS) }
+}
+//@ harness name=bc_zero_salt_df prop=C14 tier=thorough bits=1240 stub=1 est=900 mem=30 cbmc_args=--max-field-sensitivity-array-size;1100 desc="data flow: salted_expand_key(zero salt of symbolic length 1..=24, key) == Schneier's unsalted expansion (what bc_expand_key and ordinary keying compute), klen symbolic 1..=72; stand-in for encrypt as in bc_salted_df"
+verif_harness! {
+    name: bc_zero_salt_df,
+    bytes: 170,
+    unwind: 540,
+    stubs: [(crate::Blowfish::encrypt, stub_encrypt_df)],
+    prop: |inp| { dataflow::<24>(&inp[..], ZERO_SALT_VS_PLAIN) }
+}
+//@ harness name=bc_expand_key_df prop=C14,C20 tier=thorough bits=1176 stub=1 est=900 mem=30 cbmc_args=--max-field-sensitivity-array-size;1100 desc="data flow: bc_expand_key(key[..klen]) == Schneier's key expansion, arbitrary P array, klen symbolic 1..=72; stand-in for encrypt as in bc_salted_df"
+verif_harness! {
+    name: bc_expand_key_df,
+    bytes: 170,
+    unwind: 540,
+    stubs: [(crate::Blowfish::encrypt, stub_encrypt_df)],
+    prop: |inp| { dataflow::<24>(&inp[..], PLAIN_VS_PLAIN) }
+}
+
+// fixed lengths (quick tier): every read of salt and key is at a constant position
+macro_rules! df_fixed {
+    ($name:ident, $mode:expr, $slen:expr, $klen:expr) => {
+        verif_harness! {
+            name: $name,
+            bytes: 170,
+            unwind: 540,
+            stubs: [(crate::Blowfish::encrypt, stub_encrypt_df)],
+            prop: |inp| { dataflow_rec::<24>(&inp[..], $mode, $slen, $klen, $mode == SALTED_VS_EKS) }
+        }
+    };
+}
+//@ harness name=bc_salted_df_s12_k72 prop=C14,C20 tier=quick bits=1248 stub=1 est=120 cbmc_args=--max-field-sensitivity-array-size;1100 desc="data flow of salted_expand_key == eksblowfish ExpandKey for a 12-byte salt (does not divide 16: the salt position carries over between the P phase and the S phase) and a 72-byte key (bcrypt's maximum, above Blowfish's 56): arbitrary P array, all salt and key bytes; encrypt replaced on both sides by a recording stand-in (result of call k a constant of k, argument logged): the arguments of all 521 calls and the final state (1042 words) are equal"
+df_fixed!(bc_salted_df_s12_k72, SALTED_VS_EKS, 12, 72);
+//@ harness name=bc_salted_df_s16_k8 prop=C14,C20 tier=quick bits=768 stub=1 est=120 cbmc_args=--max-field-sensitivity-array-size;1100 desc="data flow of salted_expand_key == eksblowfish ExpandKey for bcrypt's 16-byte salt and an 8-byte key; as bc_salted_df_s12_k72"
+df_fixed!(bc_salted_df_s16_k8, SALTED_VS_EKS, 16, 8);
+//@ harness name=bc_salted_df_s5_k57 prop=C14,C20 tier=quick bits=1072 stub=1 est=120 cbmc_args=--max-field-sensitivity-array-size;1100 desc="data flow of salted_expand_key == eksblowfish ExpandKey for a 5-byte salt and a 57-byte key (odd lengths: every word straddles the wrap-around); as bc_salted_df_s12_k72"
+df_fixed!(bc_salted_df_s5_k57, SALTED_VS_EKS, 5, 57);
+//@ harness name=bc_zero_salt_df_s16_k72 prop=C14 tier=quick bits=1152 stub=1 est=120 cbmc_args=--max-field-sensitivity-array-size;1100 desc="data flow: salted_expand_key(16 zero bytes, 72-byte key) == Schneier's unsalted expansion (what bc_expand_key and ordinary keying compute); stand-in for encrypt as above"
+df_fixed!(bc_zero_salt_df_s16_k72, ZERO_SALT_VS_PLAIN, 16, 72);
+//@ harness name=bc_expand_key_df_k72 prop=C14,C20 tier=quick bits=1152 stub=1 est=120 cbmc_args=--max-field-sensitivity-array-size;1100 desc="data flow: bc_expand_key(72-byte key) == Schneier's key expansion with the key cycled, arbitrary P array; stand-in for encrypt as above"
+df_fixed!(bc_expand_key_df_k72, PLAIN_VS_PLAIN, 16, 72);
